@@ -48,7 +48,7 @@ func TestC13(t *testing.T) {
 
 	rapid.Check(t, func(t *rapid.T) {
 		col.Case()
-		cfg := irsem.GenCfg{MaxDepth: rapid.IntRange(1, 5).Draw(t, "depth"), GadgetProb: 10, LessBudget: 4096}
+		cfg := irsem.GenCfg{MaxDepth: rapid.IntRange(1, 5).Draw(t, "depth"), GadgetProb: 10, LessBudget: 4096, MoreLess: true}
 		e := irsem.GenExpr(t, cfg)
 		before := irsem.String(e)
 		wantN := c13Count(e)
